@@ -12,7 +12,6 @@ pub mod verif {
     pub static mut VALUES: [[Option<u8>; K]; 3] = [[None; K]; 3];
     pub static mut ENV_PREFIX_OK: bool = false;
     pub static mut ENV_SPLIT_OK: bool = false;
-    pub static mut ENV_IGNORES_PROFILE: bool = false;
     pub static mut PROFILE_FILE_OK: bool = false;
     pub static mut BASE_FILE_OK: bool = false;
     /// the 8-byte suffix the profile file name must end with (set by the harness)
@@ -94,11 +93,71 @@ pub mod providers {
         }
     }
     impl Provider for YamlFile { fn src(&self) -> Src { self.src } }
+    /// Environment provider. figment's documented semantics: `prefixed(p)` keeps the variables whose name
+    /// starts with `p` (prefix stripped); every later builder call transforms or filters the KEYS in call
+    /// order: `split(s)` replaces `s` by the nesting separator `.`, `ignore(ks)` drops keys equal
+    /// (case-insensitively) to one of `ks`, `only(ks)` keeps only those, `filter(f)` keeps keys for which
+    /// `f` holds. The shim follows a fixed set of probe variables through that chain - `PROFILE` itself
+    /// and look-alikes that are ordinary configuration keys - and records which survive and whether the
+    /// nested ones were split; the harness asserts that exactly `PROFILE` is dropped.
     pub struct Env;
+    pub const N_PROBES: usize = 5;
+    /// (name after the prefix was stripped, the same after a correct `__` split)
+    pub const PROBES: [(&str, &str); N_PROBES] = [
+        ("PROFILE", "PROFILE"),
+        ("K0", "K0"),
+        ("PROFILES_DIR", "PROFILES_DIR"),
+        ("PROFILE__LABEL", "PROFILE.LABEL"),
+        ("PROFILER__ON", "PROFILER.ON"),
+    ];
+    pub static mut PROBE_ALIVE: [bool; N_PROBES] = [false; N_PROBES];
+    pub static mut PROBE_SPLIT: bool = false;
+    /// `&UncasedStr`, as handed to `Env::filter` closures: comparisons ignore ASCII case
+    pub struct UncasedStr { s: str }
+    impl UncasedStr {
+        pub fn new(s: &str) -> &UncasedStr { unsafe { &*(s as *const str as *const UncasedStr) } }
+        pub fn as_str(&self) -> &str { &self.s }
+        pub fn len(&self) -> usize { self.s.len() }
+        pub fn is_empty(&self) -> bool { self.s.is_empty() }
+        pub fn starts_with(&self, p: &str) -> bool {
+            let (a, b) = (self.s.as_bytes(), p.as_bytes());
+            if b.len() > a.len() { return false; }
+            let mut i = 0;
+            while i < b.len() { if a[i].to_ascii_lowercase() != b[i].to_ascii_lowercase() { return false; } i += 1; }
+            true
+        }
+        pub fn eq_str(&self, p: &str) -> bool { self.s.len() == p.len() && self.starts_with(p) }
+    }
+    impl PartialEq<str> for UncasedStr { fn eq(&self, o: &str) -> bool { self.eq_str(o) } }
+    impl PartialEq<&str> for UncasedStr { fn eq(&self, o: &&str) -> bool { self.eq_str(o) } }
+    impl PartialEq<UncasedStr> for UncasedStr { fn eq(&self, o: &UncasedStr) -> bool { self.eq_str(&o.s) } }
+    impl AsRef<str> for UncasedStr { fn as_ref(&self) -> &str { &self.s } }
+    fn probe_name(i: usize) -> &'static str { if unsafe { PROBE_SPLIT } { PROBES[i].1 } else { PROBES[i].0 } }
+    fn keep_probes(f: impl Fn(&UncasedStr) -> bool) {
+        let mut i = 0;
+        while i < N_PROBES {
+            if unsafe { PROBE_ALIVE[i] } && !f(UncasedStr::new(probe_name(i))) { unsafe { PROBE_ALIVE[i] = false; } }
+            i += 1;
+        }
+    }
     impl Env {
-        pub fn prefixed(p: &str) -> Env { unsafe { verif::ENV_PREFIX_OK = p == "PX_"; } Env }
-        pub fn split(self, s: &str) -> Env { unsafe { verif::ENV_SPLIT_OK = s == "__"; } self }
-        pub fn ignore(self, ks: &[&str]) -> Env { unsafe { verif::ENV_IGNORES_PROFILE = ks.len() == 1 && ks[0] == "PROFILE"; } self }
+        pub fn prefixed(p: &str) -> Env {
+            unsafe { verif::ENV_PREFIX_OK = p == "PX_"; PROBE_ALIVE = [true; N_PROBES]; PROBE_SPLIT = false; }
+            Env
+        }
+        pub fn raw() -> Env { unsafe { verif::ENV_PREFIX_OK = false; PROBE_ALIVE = [true; N_PROBES]; PROBE_SPLIT = false; } Env }
+        pub fn split(self, s: &str) -> Env { unsafe { verif::ENV_SPLIT_OK = s == "__"; PROBE_SPLIT = s == "__"; } self }
+        pub fn ignore(self, ks: &[&str]) -> Env {
+            keep_probes(|k| { let mut j = 0; while j < ks.len() { if k.eq_str(ks[j]) { return false; } j += 1; } true });
+            self
+        }
+        pub fn only(self, ks: &[&str]) -> Env {
+            keep_probes(|k| { let mut j = 0; while j < ks.len() { if k.eq_str(ks[j]) { return true; } j += 1; } false });
+            self
+        }
+        pub fn filter<F: Fn(&UncasedStr) -> bool + Clone + 'static>(self, f: F) -> Env { keep_probes(f); self }
+        pub fn lowercase(self, _l: bool) -> Env { self }
+        pub fn global(self) -> Env { self }
     }
     impl Provider for Env { fn src(&self) -> Src { Src::Env } }
 }
